@@ -597,3 +597,64 @@ RULE = ("one case = (spec, schedule): spec generated from the run seed (entry po
         "schedule = every 'which event fires next / how many events at this seam / which done future is handed out' "
         "decision. Non-trivial: >=2 payloads, >=2 completions through the simulated pool and >=1 scheduling decision. "
         "Distinct: distinct SHA-256 digests of the event log (decisions, submit/start/complete/yield events with payload keys and results).")
+
+
+# ------------------------------------------------------------------------------- fidelity: the real pool
+def real_pool_run(spec: dict):
+    """Run the spec through the *real* ProcessPoolExecutor (nothing patched).  Schedule-independent oracle."""
+    from tatsu.parproc.result import Result
+
+    payloads = build_payloads(spec)
+    got = []
+    for r in call_entry(spec, payloads, True, []):
+        if isinstance(r, Result):
+            got.append(observe(r))
+    truth = {p["key"]: expected(spec, p) for p in spec["payloads"]}
+    keys = [g[0] for g in got]
+    if len(set(keys)) != len(keys):
+        return f"duplicate keys {sorted(keys)}"
+    if sorted(keys) != sorted(truth):
+        return f"keys {sorted(keys)} expected {sorted(truth)}"
+    for key, out, exc in got:
+        if (out, exc) != truth[key]:
+            return f"payload {key}: got {(out, exc)} expected {truth[key]}"
+    return None
+
+
+def post_batch(tier: str, seed: int, total: dict):
+    """Cross-check of the executor stub's contract against the real process pool (never part of the verdict's
+    deterministic replay: a disagreement is reported as a violation marked nondeterministic)."""
+    import os
+    import time
+
+    from .runner import in_scratch
+
+    k = 6 if tier == "quick" else 60
+    t0 = time.time()
+    done = 0
+    problems = []
+
+    def work():
+        nonlocal done
+        r = 0
+        while done < k and r < 50 * k and time.time() - t0 < (20 if tier == "quick" else 240):
+            s = derive(seed, "realpool", r)
+            r += 1
+            spec = gen_spec(s, config="captured")
+            if spec["pool"] != "process" or len(spec["payloads"]) < 2:
+                continue
+            spec["max_workers"] = spec["max_workers"] or 2
+            try:
+                msg = real_pool_run(spec)
+            except Exception as e:  # noqa: BLE001
+                msg = f"raised {type(e).__name__}: {e}"
+            done += 1
+            if msg:
+                problems.append({"seed": s, "spec": spec, "problem": msg})
+
+    in_scratch(work)
+    for p in problems[:3]:
+        total["violations"].append({"run": -1, "seed": p["seed"], "spec": p["spec"],
+                                    "violation": {"clause": "real-pool", "detail": p["problem"],
+                                                  "signature": f"{PROP}:real-pool:nondeterministic"}})
+    return {"real_pool_runs": done, "real_pool_disagreements": len(problems), "real_pool_wall_s": round(time.time() - t0, 1)}
